@@ -15,7 +15,9 @@ say the source is (`codeVariant`) and the callback instants in 100 ms buckets `(
 the model (theorem `at_most_once_after_stabilisation`).
 When some operation is nominally closer than `margin` to a model deadline the real ordering cannot be
 predicted: the implementation's line is echoed and only the spec verdict is given.
-Verdict: the executable spec on the IMPLEMENTATION's sequence (`specVerdict`).
+Verdict: the executable spec on the IMPLEMENTATION's sequence (`specVerdict`): no callback for the content seen
+last, only contents the script wrote, and — when the script waited longer than R+D after its last file operation,
+or longer than D (+100 ms) after a notification delivered after it — the last content seen is the final content.
 -/
 namespace Gate.C38
 open Gate
@@ -60,11 +62,20 @@ def stepCase (c : Case) : String × String :=
         ("bad-script", "-")
       else
         let cfg : Cfg := ⟨R, D⟩
-        let final := (ops.filterMap fun (_, o, _) => match o with | .write x => some x | _ => none).getLast?.getD c0
+        let written := ops.filterMap fun (_, o, _) => match o with | .write x => some x | _ => none
         let lastFs := (ops.filterMap fun (t, _, f) => if f then some t else none).getLast?.getD 0
-        let settled := decide (lastFs + R + D < endT)
+        -- a notification for the config file delivered (watcher attached) after the last file operation
+        let tail := match (ops.reverse.span fun (_, _, f) => !f) with | (afterLast, _) => afterLast.reverse
+        let failsBefore := fun (t : Nat) => ops.filterMap fun (tx, o, _) =>
+          match o with | .wclose => if tx ≤ t then some tx else none | _ => none
+        let notified := tail.findSome? fun (t, o, _) =>
+          match o with
+          | .event => if watcherUpAt R 60 (failsBefore t) t then some t else none
+          | _ => none
+        let settled := decide (lastFs + R + D < endT) ||
+          (match notified with | some te => decide (te + D + 100 ≤ endT) | none => false)
         let verdict := match parseImpl c.impl with
-          | some (sq, inTime) => specVerdict c0 sq final settled inTime
+          | some (sq, inTime) => specVerdict c0 sq written settled inTime
           | none => if c.impl = "watcher-not-closed" then "-" else "viol:unparsable-output"
         match runScript codeVariant cfg c0 (ops.map fun (t, o, _) => (t, o)) endT with
         | none => ("model-error", verdict)
